@@ -147,6 +147,11 @@ def select_start_nodes(td, env, num_starts):
         num_starts: Number of nodes to select. This may be passed when calling the policy directly. See :class:`rl4co.models.AutoregressiveDecoder`
     """
     num_loc = env.generator.num_loc if hasattr(env.generator, "num_loc") else 0xFFFFFFFF
+    # the instances at hand may be larger or smaller than the generator's default size
+    if env.name in ["tsp", "atsp", "flp", "mcp"]:
+        num_loc = td["action_mask"].shape[-1]
+    elif env.name in ["cvrp", "cvrptw", "sdvrp", "mtsp", "op", "pctsp", "spctsp"]:
+        num_loc = td["action_mask"].shape[-1] - 1  # depot excluded
     if env.name in ["tsp", "atsp", "flp", "mcp"]:
         selected = (
             torch.arange(num_starts, device=td.device).repeat_interleave(td.shape[0])
